@@ -390,7 +390,13 @@ class MutantArm(Arm):
             what = f"output path misspelt: {outputs}"
         elif kind == "value_for_missing_operator":
             p_ = m["nodes"][pick % len(m["nodes"])][0]
-            node_values = {f"{p_}/nonexistent_op/a": 1.0}
+            if pick % 3 == 0:
+                # an existing operator and variable on a node path that does not exist
+                o_ = m["ntypes"][m["nodes"][pick % len(m["nodes"])][1]]["ops"][0]
+                v_ = m["ops"][o_]["vars"][0][0]
+                node_values = {f"{p_}_zz/{o_}/{v_}": 1.0}
+            else:
+                node_values = {f"{p_}/nonexistent_op/a": 1.0}
             what = f"apply(node_values={node_values})"
         elif kind == "two_outputs":
             cands = [v[0] for v in od["vars"] if v[1] in ("state", "alg") and v[0] != od.get("out")]
